@@ -9,6 +9,28 @@ CLAIMED = {
        "the single network address for /31,/32, that computeNetSz equals the count, and that a cancelled generator that selects on ctx.Done() can always finish without a consumer. "
        "The model is tied to the code by running Go's ipGenerator/computeNetSz and the extracted model on the same (address, prefix) cases every run.",
   note=NOTE_COMMON + "Modelled not verified: net.ParseCIDR (contiguous mask, 4-byte network address), Go channel/select semantics; 'returns after cancel' is measured with a 3 s budget."),
+
+ "C19": dict(
+  technique="Coq proof of the header codec against a bit-level view + message-type tables regenerated from the running code for all 1024 codes each run and checked by proved-sound boolean checkers (vm_compute); exhaustive differential correspondence of the header codec",
+  text="coq/Props/C19.v proves hdr_decode/hdr_encode exact against the MSB-first bit view (version bits 3-5, 10-bit type, length-10, id), rejection of lengths < 10, round trip both ways and what the encoder refuses, for all inputs. "
+       "The tables (IsValid, Converse, NewInstance().Type()) are dumped from the running Go code for all 1024 type codes on every run into build/gen/C19/MsgTables.v and the generic, once-proved soundness theorems turn `checker tables = true` (vm_compute) into: instance types agree, the pairing is symmetric, injective and covers every pinned LLRP request/response pair. "
+       "Header correspondence: all 2^16 first-two-byte values x boundary lengths x ids through UnmarshalBinary/readHeader/MarshalBinary/WriteTo/writeHeader vs the extracted model.",
+  note=NOTE_COMMON + "Trusted: the table dump calls the functions it names; spec/llrp_pairs.json (pinned LLRP request/response pairs, proved equal to the Coq list). Modelled not verified: io.ReadFull."),
+ "C14": dict(
+  technique="Coq proof that the command decision function maps exactly as the documented relation (transcribed README/profile table) + keep-alive enforcement; differential correspondence through the real Driver.HandleRead/WriteCommands with a scripted reader",
+  text="coq/Props/C14.v: for all commands, run c = (requests, no error) iff the documented relation doc_maps c requests (soundness and acceptance of well-formed documented commands), malformed commands are rejected with no request, every SetReaderConfig carries KeepAliveSpec Periodic 30000 ms = 60 s / 2 with other fields unchanged. "
+       "The model has a flag for the code variant without the AccessSpec case (refuted witnesses proved); the check observes which variant the tree behaves like and evaluates the documented table (spec/doc_commands.json) directly on the frames the scripted reader received.",
+  note=NOTE_COMMON + "Trusted: transcription of README/profile into spec/doc_commands.json and doc_maps; the scripted reader's own byte parsing; EdgeX SDK mock. encoding/json and base64 behaviour is compared, not modelled."),
+ "C17": dict(
+  technique="Coq proof of the naming function (hex formatting, prefix table, MAC/EPC branch) and of a discovery-run model over abstract timers; differential correspondence with Go naming and with probe/autoDiscover against scripted hosts",
+  text="coq/Props/C17.v proves name_format for every vendor/model/id-type/reader-id byte string (incl. < 3 bytes and empty), that the hex digits denote the bytes, the prefix table, determinism, identity fields as received, that registered operating devices are skipped, that only identified hosts are reported, and (partial) that a run is bounded by max duration + one probe allowance when every blocking step is bounded by its timer. "
+       "PARTIAL: wall-clock time is not expressible in the model; the check measures run time against scripted hosts (refuse, silent, garbage, stall at each stage, correct).",
+  note=NOTE_COMMON + "Modelled not verified: TCP dial/deadline behaviour, fmt %02X / hex.EncodeToString (outputs compared every run), Go scheduler. Wall-clock bounds are measured, not proved."),
+ "C06": dict(
+  technique="Coq proof over the negotiation decision function and the writer's version stamping, clause by clause; exhaustive differential correspondence over client max x reader (current,max) x reactions",
+  text="coq/Props/C06.v proves: no negotiation for a 1.0.1 client; the settled version is min(client max, reader max) (1.0.1 on version-unsupported); SetProtocolVersion only if different; both negotiation frames carry 1.1; every later frame (requests and acks) carries the negotiated version for conforming stamping (and the refuted witness for the pre-fix behaviour); any other error/refusal/wrong type/oversize fails Connect. "
+       "Every run enumerates the whole finite space of sessions (5.7k quick, 82k thorough) on the real Client over net.Pipe and compares frames, outcome and later-frame versions with the model and with the property clauses.",
+  note=NOTE_COMMON + "Trusted: the scripted reader's own frame code; atomicity of the negotiation exchange (one request outstanding). The SetProtocolVersion payload format is recorded, not judged (DESIGN §7)."),
 }
 NOT_APPLICABLE = {}
 for _p in ["C%02d" % i for i in range(1, 21)]:
